@@ -48,6 +48,15 @@ def tie(ctx):
             hid += 1
             ops = L.gen_history(rng, ctx.tier, hid, rng.choice([40, 60]))
             scripts.append(L.wrap(s, ops, "disk" if rng.random() < 0.15 else "mem"))
+    # fault stream: database::remove_track of a track in two crates with ChangeLog rows, a fault at every statement
+    nf = 0
+    for s in schemas:
+        for k in range(7):
+            hid += 1
+            ops = L.gen_history(rng, ctx.tier, hid, 14)
+            pre, post = L.fault_suffix(rng, k, "%d" % k)
+            scripts.append(L.wrap(s, ops + pre, "mem", rows_every=1000) + post)
+            nf += 1
     results = L.run_all(scripts)
     return L.finish(ctx, "C11_lib2", results,
                     "2.x whole library: seeded histories on %s interleaving create_track / update / the 26 setters / "
@@ -58,4 +67,4 @@ def tie(ctx):
                     "PRAGMA foreign_key_check / integrity_check, the modelled foreign_key_check on the real dump, every "
                     "stored blob decoded, and 'a call that threw left the dump untouched' as supporting checks" % ", ".join(schemas),
                     [" ; ".join(l for l in scripts[0][1:40] if not l.startswith(("v2.obs", "lib2.")))[:400]],
-                    WANT, extra_hist={"schemas": schemas, "scripts": len(scripts)})
+                    WANT, extra_hist={"schemas": schemas, "scripts": len(scripts), "fault_scripts": nf})
